@@ -41,7 +41,11 @@ Has(d) == d \in Dev
 \* "noGate"             : the coordinator does not wait for the gate
 \* "dupStopped"         : the stopped event is written twice
 \* "stepNoResume"       : a step request is answered but does not act on the runtime
-AsCoded == {"genDropKeepsPaused", "gateAfterAct"}
+\* "inspectLocks"       : an inspection request (stackTrace, scopes, variables) that finds no snapshot takes the runtime
+\*                        mutex, which the cycle thread holds for the whole cycle - also while it waits in the hook
+\*                        (as coded: paused.rs PausedStateView::with_storage)
+\* "cycleUnobserved"    : abstraction switch for trace validation: begin and end of a cycle are not logged
+AsCoded == {"genDropKeepsPaused", "gateAfterAct", "inspectLocks"}
 
 VARIABLES
   \* ---- DebugControl (behind the DebugState mutex)
@@ -52,6 +56,8 @@ VARIABLES
   bpN,         \* number of breakpoints installed
   rt,          \* "run" | "wait"  the cycle thread is executing / blocked in the hook's wait
   stopId,      \* number of stops decided so far; the current one while rt = "wait"
+  snap,        \* a snapshot of the variables is stored (taken at a stop, discarded by pause / continue / step)
+  inCycle,     \* the cycle thread is inside execute_cycle, i.e. holds the runtime mutex
   \* ---- adapter
   chan,        \* the mpsc stop channel
   cpc, cstop,  \* coordinator: program counter and the stop in hand
@@ -70,11 +76,11 @@ VARIABLES
   orderBad,    \* a stopped event was written before the response of an earlier resume
   resumeDue    \* a resuming action was applied while the hook waited and the hook has not reacted yet
 
-rtvars  == <<mode, pending, stepOn, bpGen, bpN, rt, stopId>>
+rtvars  == <<mode, pending, stepOn, bpGen, bpN, rt, stopId, snap, inCycle>>
 cvars   == <<cpc, cstop>>
 mvars   == <<mpc, mreq, mgate>>
 clvars  == <<nreq, outstanding, view, shown, disc>>
-vars == <<mode, pending, stepOn, bpGen, bpN, rt, stopId, chan, cpc, cstop, PE, gate, mpc, mreq, mgate,
+vars == <<mode, pending, stepOn, bpGen, bpN, rt, stopId, snap, inCycle, chan, cpc, cstop, PE, gate, mpc, mreq, mgate,
           inq, wire, nreq, outstanding, view, shown, disc, acts, answered, delivered, orderBad, resumeDue>>
 
 NoStop == [id |-> 0, reason |-> "none", th |-> 0, gen |-> 0, line |-> 0, epoch |-> 0]
@@ -82,10 +88,11 @@ NoReq  == [seq |-> 0, cmd |-> "none", th |-> 0, n |-> 0]
 Resume == {"continue", "next", "stepIn", "stepOut"}
 Steps  == {"next", "stepIn", "stepOut"}
 Gated  == Resume \cup {"pause"}
+Inspect == {"stackTrace", "scopes", "variables"}
 
 InitWith(entry, gen, n) ==
   /\ mode = (IF entry THEN "Paused" ELSE "Running") /\ pending = (IF entry THEN "Entry" ELSE "none")
-  /\ stepOn = FALSE /\ bpGen = gen /\ bpN = n /\ rt = "run" /\ stopId = 0
+  /\ stepOn = FALSE /\ bpGen = gen /\ bpN = n /\ rt = "run" /\ stopId = 0 /\ snap = FALSE /\ inCycle = FALSE
   /\ chan = <<>> /\ cpc = "recv" /\ cstop = NoStop /\ PE = entry /\ gate = 0
   /\ mpc = "idle" /\ mreq = NoReq /\ mgate = FALSE
   /\ inq = <<>> /\ wire = <<>> /\ nreq = 0 /\ outstanding = {} /\ view = "running" /\ shown = 0
@@ -95,7 +102,8 @@ InitWith(entry, gen, n) ==
 Emit(reason, th, gen, line) ==
   /\ stopId' = stopId + 1
   /\ chan' = Append(chan, [id |-> stopId + 1, reason |-> reason, th |-> th, gen |-> gen, line |-> line, epoch |-> acts])
-  /\ rt' = "wait" /\ resumeDue' = FALSE
+  /\ rt' = "wait" /\ resumeDue' = FALSE /\ snap' = TRUE
+  /\ (inCycle \/ Has("cycleUnobserved")) /\ inCycle' = TRUE
 
 \* a pending Pause / Entry is consumed at the next statement of the cycle, or in place when the hook
 \* is woken while the mode is Paused again (continue immediately followed by pause)
@@ -119,14 +127,21 @@ RStop(reason, th, line) ==
   /\ UNCHANGED <<cvars, PE, gate, mvars, inq, wire, clvars, acts, answered, delivered, orderBad>>
 RResume ==
   /\ rt = "wait" /\ mode = "Running" /\ rt' = "run" /\ resumeDue' = FALSE
-  /\ UNCHANGED <<mode, pending, stepOn, bpGen, bpN, stopId, chan, cvars, PE, gate, mvars, inq, wire, clvars,
+  /\ UNCHANGED <<mode, pending, stepOn, bpGen, bpN, stopId, snap, inCycle, chan, cvars, PE, gate, mvars, inq, wire, clvars,
                  acts, answered, delivered, orderBad>>
+\* execute_cycle is entered / left (the runner takes / drops the runtime mutex); a cycle only ends while running
+RCycleBegin == /\ ~inCycle /\ inCycle' = TRUE
+               /\ UNCHANGED <<mode, pending, stepOn, bpGen, bpN, rt, stopId, snap, chan, cvars, PE, gate, mvars, inq, wire, clvars,
+                              acts, answered, delivered, orderBad, resumeDue>>
+RCycleEnd ==   /\ inCycle /\ rt = "run" /\ ~resumeDue /\ inCycle' = FALSE
+               /\ UNCHANGED <<mode, pending, stepOn, bpGen, bpN, rt, stopId, snap, chan, cvars, PE, gate, mvars, inq, wire, clvars,
+                              acts, answered, delivered, orderBad, resumeDue>>
 
 \* ------------------------------------------------------------------ DebugControl actions
-DoContinue == mode' = "Running" /\ stepOn' = FALSE /\ pending' = "none"
-DoStep     == mode' = "Running" /\ stepOn' = TRUE /\ pending' = "none"
-DoPause    == IF mode = "Paused" THEN UNCHANGED <<mode, stepOn, pending>>
-              ELSE mode' = "Paused" /\ stepOn' = FALSE /\ pending' = "Pause"
+DoContinue == mode' = "Running" /\ stepOn' = FALSE /\ pending' = "none" /\ snap' = FALSE
+DoStep     == mode' = "Running" /\ stepOn' = TRUE /\ pending' = "none" /\ snap' = FALSE
+DoPause    == IF mode = "Paused" THEN UNCHANGED <<mode, stepOn, pending, snap>>
+              ELSE mode' = "Paused" /\ stepOn' = FALSE /\ pending' = "Pause" /\ snap' = FALSE
 
 \* ------------------------------------------------------------------ main thread
 MRead ==
@@ -135,6 +150,7 @@ MRead ==
   /\ mpc' = CASE Head(inq).cmd = "continue" -> "pe"
               [] Head(inq).cmd = "pause" -> "chk"
               [] Head(inq).cmd \in Steps \cup {"setBreakpoints", "disconnect"} -> "act"
+              [] Head(inq).cmd \in Inspect -> "insp"
               [] OTHER -> "resp"
   /\ UNCHANGED <<rtvars, chan, cvars, PE, gate, wire, clvars, acts, answered, delivered, orderBad, resumeDue>>
 
@@ -159,13 +175,22 @@ MGateEnter ==
 MAct ==
   /\ mpc = "act" /\ GateOkBeforeAct /\ mpc' = "resp"
   /\ CASE mreq.cmd \in {"continue", "disconnect"} -> DoContinue /\ UNCHANGED <<bpGen, bpN>>
-       [] mreq.cmd \in Steps -> (IF Has("stepNoResume") THEN UNCHANGED <<mode, stepOn, pending>> ELSE DoStep) /\ UNCHANGED <<bpGen, bpN>>
+       [] mreq.cmd \in Steps -> (IF Has("stepNoResume") THEN UNCHANGED <<mode, stepOn, pending, snap>> ELSE DoStep) /\ UNCHANGED <<bpGen, bpN>>
        [] mreq.cmd = "pause" -> DoPause /\ UNCHANGED <<bpGen, bpN>>
-       [] mreq.cmd = "setBreakpoints" -> bpGen' = bpGen + 1 /\ bpN' = mreq.n /\ UNCHANGED <<mode, stepOn, pending>>
+       [] mreq.cmd = "setBreakpoints" -> bpGen' = bpGen + 1 /\ bpN' = mreq.n /\ UNCHANGED <<mode, stepOn, pending, snap>>
        [] OTHER -> FALSE
   /\ acts' = IF mreq.cmd \in Resume THEN acts + 1 ELSE acts
   /\ resumeDue' = IF mreq.cmd \in Resume \cup {"disconnect"} /\ rt = "wait" /\ mode' = "Running" THEN TRUE ELSE resumeDue
-  /\ UNCHANGED <<rt, stopId, chan, cvars, PE, gate, mreq, mgate, inq, wire, clvars, answered, delivered, orderBad>>
+  /\ UNCHANGED <<rt, stopId, inCycle, chan, cvars, PE, gate, mreq, mgate, inq, wire, clvars, answered, delivered, orderBad>>
+
+\* an inspection request answers from the snapshot if there is one (PausedStateView::new); otherwise it reads the
+\* runtime itself, for which it needs the runtime mutex (the repaired code: try_lock, and an empty answer otherwise)
+MInspect ==
+  /\ mpc = "insp" /\ mpc' = (IF snap THEN "resp" ELSE "lock")
+  /\ UNCHANGED <<rtvars, chan, cvars, PE, gate, mreq, mgate, inq, wire, clvars, acts, answered, delivered, orderBad, resumeDue>>
+MInspectLock ==
+  /\ mpc = "lock" /\ (Has("inspectLocks") => ~inCycle) /\ mpc' = "resp"
+  /\ UNCHANGED <<rtvars, chan, cvars, PE, gate, mreq, mgate, inq, wire, clvars, acts, answered, delivered, orderBad, resumeDue>>
 
 Response(r) == [kind |-> "response", seq |-> r.seq, cmd |-> r.cmd, id |-> 0, reason |-> "none", th |-> 0]
 MWrite ==
@@ -205,9 +230,9 @@ CDropPE ==
 \* a Breakpoint stop of an outdated breakpoint set is void: it is forgotten and execution goes on
 CDropGen ==
   /\ cpc = "dropGen" /\ cpc' = "recv" /\ cstop' = NoStop
-  /\ IF Has("genDropKeepsPaused") THEN UNCHANGED <<mode, stepOn, pending, resumeDue>>
+  /\ IF Has("genDropKeepsPaused") THEN UNCHANGED <<mode, stepOn, pending, snap, resumeDue>>
      ELSE DoContinue /\ resumeDue' = (IF rt = "wait" THEN TRUE ELSE resumeDue)
-  /\ UNCHANGED <<bpGen, bpN, rt, stopId, chan, PE, gate, mvars, inq, wire, clvars, acts, answered, delivered, orderBad>>
+  /\ UNCHANGED <<bpGen, bpN, rt, stopId, inCycle, chan, PE, gate, mvars, inq, wire, clvars, acts, answered, delivered, orderBad>>
 Stopped(s) == [kind |-> "stopped", seq |-> 0, cmd |-> "none", id |-> s.id, reason |-> s.reason, th |-> s.th]
 CWrite ==
   /\ cpc = "emit"
@@ -236,9 +261,9 @@ Recv ==
 \* ------------------------------------------------------------------ properties
 TypeOK ==
   /\ mode \in {"Running", "Paused"} /\ pending \in {"none", "Pause", "Entry"} /\ stepOn \in BOOLEAN
-  /\ bpGen \in Nat /\ bpN \in Nat /\ rt \in {"run", "wait"} /\ stopId \in Nat
+  /\ bpGen \in Nat /\ bpN \in Nat /\ rt \in {"run", "wait"} /\ stopId \in Nat /\ snap \in BOOLEAN /\ inCycle \in BOOLEAN
   /\ cpc \in {"recv", "gate", "pe", "gen", "emit", "dropPE", "dropGen"} /\ PE \in BOOLEAN /\ gate \in Nat
-  /\ mpc \in {"idle", "chk", "pe", "act", "resp", "respNG", "done", "exit"} /\ mgate \in BOOLEAN
+  /\ mpc \in {"idle", "chk", "pe", "act", "insp", "lock", "resp", "respNG", "done", "exit"} /\ mgate \in BOOLEAN
   /\ view \in {"running", "stopped", "gone"} /\ disc \in BOOLEAN /\ orderBad \in BOOLEAN
 
 \* nothing is in flight: only a new request (or, while it runs, the program) can change anything
@@ -259,7 +284,9 @@ NoStoppedAfterResume == disc /\ view = "stopped" => rt = "wait" /\ shown = stopI
 \* happened after it resumed the runtime
 ResponseBeforeLaterStop == ~orderBad
 \* the hook only waits while the mode is Paused or a resume is on its way
-WaitHasCause == rt = "wait" => mode = "Paused" \/ resumeDue
+WaitHasCause == rt = "wait" => (mode = "Paused" \/ resumeDue) /\ inCycle
+\* whenever the hook has settled in a stop there is a snapshot to answer inspection requests from
+StopHasSnapshot == rt = "wait" /\ mode = "Paused" /\ pending = "none" => snap
 
 \* liveness (under fairness of the threads): see MCDapStop
 ContinueResumes == resumeDue ~> ~resumeDue
